@@ -112,20 +112,31 @@ func runTableCase(cc *caseCtx) {
 		shape = "full-container"
 	}
 	if thorough {
+		// the thorough tier has 100x the cases: keep the multi-MiB share at a few hundred tables, not tens of thousands
 		maxValue = 4 << 20
-		if rnd.Intn(40) == 0 {
+		budget = 128 << 10
+		switch r := rnd.Intn(1000); {
+		case r < 3:
 			budget = 40 << 20
+		case r < 30:
+			budget = 2 << 20
 		}
 	} else if rnd.Intn(100) == 0 {
 		budget = 20 << 20
 		maxValue = 2 << 20
 	}
 	// a few cases aim at the 3->4 byte switch of the offset table (16 MiB of values)
-	if (thorough && rnd.Intn(60) == 0) || (!thorough && cc.idx%400 == 7) {
+	if (thorough && rnd.Intn(1000) == 0) || (!thorough && cc.idx%400 == 7) {
 		profile = "width-edge-16M"
 		budget = 1<<24 + 2<<20
+		if !thorough {
+			forcedEdgeDelta = (cc.idx/400)%3 - 1
+		}
 	}
 	keys, shape := genKeys(rnd, maxN, shape)
+	if profile == "width-edge-16M" && len(keys) < 3 {
+		keys = uniqSorted(append(keys, keys[0]^0x10000, 77, maxU32-77))
+	}
 	if len(keys) > 20000 && profile == "" {
 		profile = []string{"empty", "tiny", "tiny-nonempty", "mixed-empties"}[rnd.Intn(4)]
 	}
@@ -133,6 +144,7 @@ func runTableCase(cc *caseCtx) {
 		budget = 1 << 17
 	}
 	sizes, profile := genSizes(rnd, len(keys), profile, budget, maxValue)
+	forcedEdgeDelta = 99
 	salt := rnd.Uint64()
 	entries := makeEntries(salt, keys, sizes)
 	mode := writeModes[rnd.Intn(len(writeModes))]
